@@ -13,10 +13,12 @@
     nt_to_f64    cfg [mode] a
     as_<prim>    cfg [mode] a       `AsPrimitive::<prim>::as_(a)`; answer hex of the primitive pattern
     as_f32 | as_f64 cfg [mode] a    answer: bits hex
-  Model answer: Bnum.Model.NumConv; spec answer: Bnum.Spec.NumConv (exact integers).
+  Model answer: Bnum.Model.NumConv, and Bnum.Model.NumConvD (every bnum-integer operation on digit
+  lists) for the six float ops; spec answer: Bnum.Spec.NumConv (exact integers).
 -/
 import Bnum.Drive.Util
 import Bnum.Model.NumConv
+import Bnum.Model.NumConvD
 import Bnum.Spec.NumConv
 namespace Bnum.Drive.C19
 open Bnum Bnum.Drive
@@ -66,17 +68,17 @@ def handle : Handler := fun c op args =>
     let is64 := op == "nt_from_f64"
     let bits ← parseHex b
     if bits ≥ 2 ^ (mfmt is64).bits then none else
-    some (showRes (showVal c) (NumC.fromFloat dbg (mfmt is64) w n c.signed bits),
+    some (showRes (showVal c) (NumCD.fromFloat dbg (mfmt is64) w n c.signed bits),
           showFloatAns (Spec.NumC.fromFloat (sfmt is64) c.signed m bits))
   | "nt_to_f32", [a] | "nt_to_f64", [a] => do
     let is64 := op == "nt_to_f64"
     let x ← parseVal c a
-    some (showRes toHex (NumC.toFloat dbg (mfmt is64) w c.signed x),
+    some (showRes toHex (NumCD.toFloat dbg (mfmt is64) w c.signed x),
           "S(" ++ toHex (Spec.NumC.toFloat (sfmt is64) (valOf c x)) ++ ")")
   | "as_f32", [a] | "as_f64", [a] => do
     let is64 := op == "as_f64"
     let x ← parseVal c a
-    some (showOut toHex (NumC.asFloat dbg (mfmt is64) w c.signed x),
+    some (showOut toHex (NumCD.asFloat dbg (mfmt is64) w c.signed x),
           toHex (Spec.intToFloat (sfmt is64) (valOf c x)))
   | _, [v] =>
     match stripPrefix "from_" op with
